@@ -1,74 +1,8 @@
-(* C46 — further proofs: the decision theorem widened to every pattern set on which the
-   compiled "?" class cannot be consulted on a "%" or ".", and soundness of the
-   specificity test. *)
+(* C46 — further proofs: soundness of the specificity test. *)
 From Coq Require Import NArith PeanoNat List Bool Lia.
 From Dolt Require Import Base.Str C46.Model C46.Spec C46.Corr C46.Proofs.
 Import ListNotations.
 Local Open Scope N_scope.
-
-Definition no_q (p : str) : bool := forallb (fun c => negb (c =? c_q)) p.
-
-Lemma compile_no_one p : no_q p = true -> Forall (fun tk => tk <> TOne) (compile p).
-Proof.
-  unfold no_q, compile. induction p as [|c p IH]; intros H; [constructor|]. cbn [forallb map] in *.
-  apply andb_true_iff in H as [Hc Hp]. constructor; [|apply IH; exact Hp].
-  unfold tok_of. apply negb_true_iff in Hc. rewrite Hc. destruct ((c =? c_star) || (c =? c_pct)); discriminate.
-Qed.
-
-Lemma glob_no_one one one' any p s : Forall (fun tk => tk <> TOne) p -> glob one any p s -> glob one' any p s.
-Proof.
-  intros Hp H. induction H as [|c p s H IH|x p s Hx H IH|r p s Hr H IH].
-  - constructor.
-  - constructor. apply IH. inversion Hp; assumption.
-  - inversion Hp as [|? ? Hne _]; subst. contradiction.
-  - constructor; [exact Hr|]. apply IH. inversion Hp; assumption.
-Qed.
-
-(* the specificity test as coded equals the stated one on a pair (less, a) unless a "?" of
-   [less] can meet a "%" or "." of [a] *)
-Lemma more_specific_re_spec2 less a :
-  no_q less || plain a = true -> more_specific_re less a = at_least_as_specific_b a less.
-Proof.
-  intros H. apply orb_true_iff in H as [H|H]; [|apply more_specific_re_spec; exact H].
-  unfold more_specific_re, at_least_as_specific_b. rewrite rx_eq_glob_b.
-  apply bool_eq_iff. rewrite !glob_b_iff_glob. split; apply glob_no_one; apply compile_no_one; exact H.
-Qed.
-
-(* decision_is_spec, widened.  FULL statement (false of the code as it is — known finding
-   "?" class rewritten — see decision_most_specific_refuted):
-     NoDup T -> NoDup F -> d_code (is_ignored ps n) = spec_decision ps n.
-   Proved for every pattern set in which no matching pattern with a "?" is compared with a
-   contradicting matching pattern containing "%" or "." — exactly the pairs on which the
-   compiled class [^.*.*] and the stated class [^\*%] can differ. *)
-Theorem decision_is_spec_partial2 ps n :
-  NoDup (matching ps n true) -> NoDup (matching ps n false) ->
-  (forall t f, In t (matching ps n true) -> In f (matching ps n false) ->
-               (no_q t || plain f) && (no_q f || plain t) = true) ->
-  d_code (is_ignored ps n) = spec_decision ps n.
-Proof.
-  intros NT NF Hpair. unfold is_ignored, spec_decision.
-  destruct (is_rebase n); [reflexivity|].
-  rewrite <- matching_true, <- matching_false.
-  set (T := matching ps n true) in *. set (F := matching ps n false) in *.
-  destruct T as [|t0 T'] eqn:ET; [reflexivity|]. rewrite <- ET in *.
-  assert (Nat.eqb (length T) 0 = false) as -> by (rewrite ET; reflexivity).
-  destruct F as [|f0 F'] eqn:EF; [rewrite ET; reflexivity|]. rewrite <- EF in *.
-  assert (Nat.eqb (length F) 0 = false) as -> by (rewrite EF; reflexivity).
-  rewrite ET at 1. rewrite EF at 1. rewrite <- ET, <- EF.
-  unfold resolve.
-  destruct (first_eq_pair T F) as [[t f]|] eqn:EP.
-  - rewrite (first_eq_pair_some _ _ _ _ EP). reflexivity.
-  - apply first_eq_pair_none in EP. rewrite EP.
-    rewrite (filter_ext_in' _ (fun t => existsb (fun f => at_least_as_specific_b f t) F) T).
-    2:{ intros t Ht. apply existsb_ext_in. intros f Hf. apply more_specific_re_spec2.
-        specialize (Hpair t f Ht Hf). apply andb_true_iff in Hpair. apply Hpair. }
-    rewrite (filter_ext_in' _ (fun f => existsb (fun t => at_least_as_specific_b t f) T) F).
-    2:{ intros f Hf. apply existsb_ext_in. intros t Ht. apply more_specific_re_spec2.
-        specialize (Hpair t f Ht Hf). apply andb_true_iff in Hpair. apply Hpair. }
-    rewrite !dedup_NoDup by (apply NoDup_filter; assumption).
-    rewrite !filter_length_all.
-    destruct (forallb _ T); [reflexivity|]. destruct (forallb _ F); reflexivity.
-Qed.
 
 (* ------------------------------------------------------------------ *)
 (* more_specific_sound: the syntactic test implies inclusion of what is matched *)
